@@ -299,7 +299,7 @@ impl SanitizerConfig {
                         && compat_mode_attr_schemes.is_none()
                     {
                         // We don't check schemes for this attribute.
-                        return NodeAction::None;
+                        continue;
                     }
 
                     let mut allowed_schemes = list_attr_schemes
